@@ -216,6 +216,10 @@ func genC12(r *Rng, i int) *WCase {
 	}
 	h2 := append(partition(r, n2, 1, s, true), Op{K: "c"})
 	c.Ops = append(append(h1, Op{K: "r"}), h2...)
+	if i%4 == 1 {
+		// parked and taken again: two Resets in a row (onto different destinations), nothing in between
+		c.Ops = append(append(h1, Op{K: "r"}, Op{K: "r"}), h2...)
+	}
 	c.Ops2 = h2
 	return c
 }
@@ -262,6 +266,15 @@ func genC14(r *Rng, i int) *WCase {
 	}
 	c := &WCase{Prop: "C14", ID: fmt.Sprintf("C14-%d", i), Set: s, Datas: []DataSpec{pickData(r, s, n), {Gen: "text", Seed: r.U64(), N: 3000}}}
 	c.Ops = append(partition(r, n, 0, s, true), Op{K: "c"})
+	if i%6 == 5 {
+		// a container writer whose FIRST operation is Flush (the lazy header is written by it), with all
+		// optional gzip header fields
+		c.Set = Setting{API: r.PickS([]string{"gzip", "gzip", "zlib"}), Level: r.Pick([]int{-2, -1, 1, 2, 6, 0})}
+		if c.Set.API == "gzip" {
+			c.Set.Hdr = &GzHeader{Name: randLatin1(r, 5), Comment: randLatin1(r, 9), Extra: "0102", OS: 3}
+		}
+		c.Ops = append([]Op{{K: "f"}}, c.Ops...)
+	}
 	return c
 }
 
